@@ -542,6 +542,56 @@ impl RateLimiter {
     }
 }
 
+/// Verification hooks (feature `verif` only, add-only): read access to private state and a way to
+/// move the limiter's clock (`last_submission`) without sleeping.
+#[cfg(feature = "verif")]
+mod verif_accessors {
+    use super::*;
+
+    impl AutoAllocState {
+        /// The `allocation_to_queue` index, sorted.
+        pub fn verif_allocation_index(&self) -> Vec<(AllocationId, QueueId)> {
+            let mut v: Vec<_> = self
+                .allocation_to_queue
+                .iter()
+                .map(|(k, v)| (k.clone(), *v))
+                .collect();
+            v.sort();
+            v
+        }
+    }
+
+    impl AllocationQueue {
+        pub fn verif_set_handler(&mut self, handler: Box<dyn QueueHandler>) {
+            self.handler = handler;
+        }
+    }
+
+    impl DisconnectedWorkers {
+        pub fn verif_workers(&self) -> &Map<WorkerId, LostWorkerDetails> {
+            &self.workers
+        }
+    }
+
+    impl RateLimiter {
+        /// (current_delay, submission_fails, allocation_fails, time since the last attempt)
+        pub fn verif_snapshot(&self) -> (usize, u64, u64, Option<Duration>) {
+            (
+                self.current_delay,
+                self.submission_fails,
+                self.allocation_fails,
+                self.last_submission
+                    .map(|t| now_monotonic().duration_since(t)),
+            )
+        }
+
+        /// Pretend that `by` more time has elapsed since the last submission attempt.
+        pub fn verif_advance_time(&mut self, by: Duration) {
+            self.last_submission = self.last_submission.map(|t| t.checked_sub(by).expect("instant underflow"));
+        }
+    }
+}
+
 #[cfg(test)]
 mod tests {
     use crate::common::manager::info::ManagerType;
